@@ -2,8 +2,10 @@
 
 pub mod common;
 pub mod f;
+pub mod l;
 pub mod r;
 pub mod r0;
+pub mod reload;
 pub mod rmodel;
 
 use serde::{Deserialize, Serialize};
@@ -16,6 +18,8 @@ pub enum Scenario {
     F(f::Scn),
     R(r::Scn),
     R0(r0::Scn),
+    L(l::Scn),
+    Reload(reload::Scn),
 }
 
 #[derive(Clone, Debug, Default)]
@@ -33,6 +37,8 @@ pub fn generate(profile: &str, tier: Tier, seed: u64) -> Scenario {
         "C04" => Scenario::F(f::generate(&mut rng, tier)),
         "C05" | "C06" | "C16" | "C16-huge" | "C17" | "C08" | "C08-obst" => Scenario::R(r::generate(&mut rng, tier, profile)),
         "C07" => Scenario::R0(r0::generate(&mut rng, tier)),
+        "C15-reload" => Scenario::Reload(reload::generate(&mut rng, tier)),
+        "C03" | "C15" => Scenario::L(l::generate(&mut rng, tier, profile)),
         other => panic!("unknown profile {}", other),
     }
 }
@@ -42,6 +48,8 @@ pub fn execute(scn: &Scenario, opts: &ExecOpts) -> Outcome {
         Scenario::F(s) => f::execute(s, opts),
         Scenario::R(s) => r::execute(s, opts),
         Scenario::R0(s) => r0::execute(s, opts),
+        Scenario::L(s) => l::execute(s, opts),
+        Scenario::Reload(s) => reload::execute(s, opts),
     }
 }
 
@@ -51,6 +59,8 @@ pub fn shrink(scn: &Scenario) -> Vec<Scenario> {
         Scenario::F(s) => f::shrink(s).into_iter().map(Scenario::F).collect(),
         Scenario::R(s) => r::shrink(s).into_iter().map(Scenario::R).collect(),
         Scenario::R0(s) => r0::shrink(s).into_iter().map(Scenario::R0).collect(),
+        Scenario::L(s) => l::shrink(s).into_iter().map(Scenario::L).collect(),
+        Scenario::Reload(s) => reload::shrink(s).into_iter().map(Scenario::Reload).collect(),
     }
 }
 
@@ -59,6 +69,8 @@ pub fn size(scn: &Scenario) -> usize {
         Scenario::F(s) => f::size(s),
         Scenario::R(s) => r::size(s),
         Scenario::R0(s) => r0::size(s),
+        Scenario::L(s) => l::size(s),
+        Scenario::Reload(s) => reload::size(s),
     }
 }
 
